@@ -56,7 +56,7 @@ def gen():
         skip_kind = draw(st.sampled_from(["none", "none", "var", "dist", "value"]))
         skip_idx = draw(st.integers(0, depth - 1))
         return {"depth": depth, "shape": shape, "links": links, "auto_update": draw(st.booleans()), "seed": draw(st.integers(0, 2**20)),
-                "skip_kind": skip_kind, "skip_idx": skip_idx, "observed_leaf": draw(st.booleans()), "extra_branch": draw(st.booleans())}
+                "skip_kind": skip_kind, "skip_idx": skip_idx, "observed_leaf": draw(st.booleans()), "extra_branch": draw(st.booleans()), "int_leaf": draw(st.integers(0, 3)) == 0}
 
     return g()
 
@@ -89,7 +89,9 @@ def build(c):
             loc = lsl.Calc(fn, parent)
         shape_i = child_shape if i == 1 else vs[-1].value.shape
         mk = lsl.obs if (i == len(c["links"]) and c["observed_leaf"]) else lsl.param
-        v = mk(np.zeros(shape_i, dtype=np.float32) + 2.0, lsl.Dist(tfd.Normal, loc=loc, scale=np.float32(1e-3)), name=f"v{i}")
+        # (the last variable may hold an integer-typed placeholder: simulate keeps the shape of the current value, not its dtype)
+        init = (np.zeros(shape_i, dtype=np.int32) + 2) if (c.get("int_leaf") and i == len(c["links"])) else (np.zeros(shape_i, dtype=np.float32) + 2.0)
+        v = mk(init, lsl.Dist(tfd.Normal, loc=loc, scale=np.float32(1e-3)), name=f"v{i}")
         vs.append(v)
     extra = []
     if c["extra_branch"]:
